@@ -74,7 +74,7 @@ AccCases == {[k |-> rw, fn |-> "", args |-> <<c, i>>, op |-> "", exp |-> AccClas
 
 \* statements whose guard / iterator / attribute has the wrong kind
 StmtCases == {[k |-> st, fn |-> "", args |-> <<v>>, op |-> "", exp |-> "any"] :
-                st \in {"ifguard", "forguard", "forin", "kindmatch", "statematch", "scopematch", "priority", "suppresses", "eventstate", "interp", "mapitem"},
+                st \in {"ifguard", "forguard", "forin", "kindmatch", "statematch", "scopematch", "priority", "suppresses", "eventstate", "interp", "mapitem", "mapkey", "mapaccesskey"},
                 v \in Vals}
 
 Cases == BuiltinCases \cup OpCases \cup UnCases \cup AccCases \cup StmtCases
